@@ -1,6 +1,8 @@
 import Sp.Basic
 import Sp.Lfc
+import Sp.Ceil
 import Sp.Sound
 import Sp.Complete
 import Sp.GoSound
+import Sp.Main
 import Sp.Crit
